@@ -73,9 +73,8 @@ Definition pend_data (fs : list face) (tidv : N) (sp : pend) (d : data) : pend :
   if data_effective fs d then filter (fun p => negb (sat_rec tidv d p)) sp else sp.
 
 (* the reaper: a group may linger until the first PIT update at or after the largest lifetime recorded in it *)
-Definition gmax (sp : pend) (p : prec) : N :=
-  fold_left (fun m q => if same_group p q then N.max m (p_expmax q) else m) sp 0.
-Definition pend_tick (sp : pend) (now : N) : pend := filter (fun p => now <? gmax sp p) sp.
+Definition pend_tick (sp : pend) (now : N) : pend :=
+  filter (fun p => existsb (fun q => same_group p q && (now <? p_expmax q)) sp) sp.
 
 Definition pair_eqb (a b : N * bytes) : bool := (fst a =? fst b) && bytes_eqb (snd a) (snd b).
 Fixpoint remove_one (x : N * bytes) (l : list (N * bytes)) : option (list (N * bytes)) :=
